@@ -160,6 +160,8 @@ type interp struct {
 	adv       map[int]bool
 	depth     int
 
+	nEvents int
+
 	// left recursion by denotation
 	lrSeed map[string]*lrSeed
 	lrCtx  map[string]*lrCtx // rule@offset -> context of the earlier invocations
@@ -1013,11 +1015,16 @@ func (it *interp) record(kind string, e *gspec.Expr, text []byte, p Pos, env map
 	if st := it.passedState(); st != nil {
 		ev.State = vrt.StateSnapshot(st)
 	}
-	if p.Off > 0 {
-		pre := it.in[:p.Off]
-		if strings.ContainsRune(string(pre), '\n') || len(pre) != utf8.RuneCount(pre) {
-			it.st.EventsAfterNL++
-		}
+	if p.Off > 0 && (p.Line > 1 || p.Off != p.Col-1) {
+		// behind a newline (the line count went up) or behind a multi-byte rune or an invalid
+		// byte sequence (columns count runes, offsets bytes)
+		it.st.EventsAfterNL++
+	}
+	it.nEvents++
+	if it.nEvents > 150000 {
+		// (the recorder of the real parser keeps 200000 events at most: a case with more is too
+		// expensive, not a finding)
+		panic(budgetSignal{})
 	}
 	return ev
 }
